@@ -1039,10 +1039,40 @@ def run(pid, tier, seed, log):
         o3 = run_conc(tier, seed + 11, log, kinds=["gated"], n_override=(10 if tier == "quick" else 200), focus=verbs)
         out["coverage"].update({"gatedfp_" + k: v for k, v in o3["coverage"].items() if k not in ("rule",)})
         out["violations"] += o3["violations"]
+    # reply formats are regenerated from reply.rs, so a changed format is invisible to the differential run: the
+    # machine-readable skeleton of the replies this property speaks about is compared with the recorded one
+    if pid in REPLY_PROPS:
+        info, viol = run_extractor("reply_skeletons.py", "reply-skeleton-changed",
+                                   "the numeric, the middle parameters or the order of the fields of a reply this property relies on changed in src/reply.rs (the wording of the trailing text may change freely)")
+        if viol:
+            d = [x for x in info.get("differences", [])
+                 if (re.match(r"reply \w+?(\d{3}):", x) and re.match(r"reply \w+?(\d{3}):", x).group(1) in REPLY_PROPS[pid])
+                 or not x.startswith("reply ")]
+            if d:
+                viol[0][1]["differences"] = d
+                out["violations"] += viol
+        out["coverage"]["reply_skeletons"] = {"replies": info.get("replies"), "watched": sorted(REPLY_PROPS[pid]),
+                                              "differences": info.get("differences", [])[:5]}
     os.makedirs(runner.WORK, exist_ok=True)
     out["violations"] += run_directed(pid, log)
     return out
 
+
+REPLY_PROPS = {
+    "C02": {"433"}, "C03": {"451", "464", "433"},
+    "C04": {"353", "366", "352", "315", "319", "318", "311"},
+    "C06": {"314", "369", "312", "406"},
+    "C07": {"471", "473", "474", "475", "405", "332", "333", "353", "366"},
+    "C08": {"324", "329", "367", "368", "348", "349", "346", "347", "482", "442", "441", "472", "696"},
+    "C09": {"332", "333", "331", "341", "443", "482", "442", "441", "403", "322"},
+    "C10": {"404", "301", "401", "403"},
+    "C11": {"381", "481", "483", "491", "502", "501", "221", "464"},
+    "C12": {"322", "321", "323", "353", "366", "352", "315", "319", "311", "318", "401", "403"},
+    "C13": {"421", "461", "417", "472", "501", "696", "400"},
+    "C15": {"433", "432"}, "C16": {"332", "353", "366"},
+    "C19": {"251", "252", "253", "254", "255", "265", "266", "302", "303"},
+    "C20": {"001", "002", "003", "004", "005", "375", "372", "376", "221", "405", "464"},
+}
 
 LOCK_FOOTPRINT = {
     "C02": {"NICK"},
